@@ -353,6 +353,12 @@ def controller_case(draw):
     # while the status round is in progress the controller may observe components (a concurrent finishedCheck): the
     # round reports one consistent snapshot, taken at its start
     c.update({"ncomps": ncomps, "current": cur, "comps": comps, "observe_during_round": draw(st.booleans())})
+    # a restart: the controller is initialised at a later stage; the stages before it were completed by an earlier run
+    if cur > 0 and draw(st.integers(0, 3)) == 0:
+        start = draw(st.integers(1, cur))
+        c["start_at"] = start
+        for i in range(start):
+            c["comps"][i] = [["finished", True] for _ in c["comps"][i]]
     return c
 
 
@@ -388,11 +394,14 @@ def check_controller(case, ctx: Ctx):
             cs[name] = workflow.ComponentState(job, exp.experimentGraph, create_engine=True)
         ctrl = control.Controller(exp)
         cur = case["current"]
-        for i in range(cur + 1):
+        start = case.get("start_at", 0)
+        for i in range(start, cur + 1):
             ctrl.initialise(exp._stages[i], FakeStatusDB())
         STATE = {"running": codes.RUNNING_STATE, "finished": codes.FINISHED_STATE, "failed": codes.FAILED_STATE,
                  "shutdown": codes.SHUTDOWN_STATE}
         for i, row in enumerate(case["comps"]):
+            if i < start:
+                continue            # completed by the earlier run: the controller itself accounts for them
             for k, (state, observed) in enumerate(row):
                 ref = "stage%d.c%d%s" % (i, i, "" if k == 0 else "x%d" % k)
                 if state != "unset":
@@ -448,6 +457,8 @@ def check_controller(case, ctx: Ctx):
             raise Violation("total-progress-not-weighted-sum@controller", desc + " model %r" % model)
         if flipped:
             ctx.rec.label("controller:observed-during-round")
+        if start:
+            ctx.rec.label("controller:restarted-at-later-stage")
         ctx.rec.label("controller:complete" if complete else "controller:in-progress",
                       "controller:unobserved-final-in-other-stage" if unobserved_final_elsewhere else
                       "controller:observed-consistent")
